@@ -11,26 +11,26 @@ import (
 // Abstract configuration used by the generator; printed to XML.
 
 type ARule struct {
-	Name        string
-	Action      string
-	From, To    string
-	Src, Dst    []string // names of addresses / one group / "any"
-	Svc         []string
-	LogStart    string
-	LogEnd      string
-	LogSetting  string
-	Extra       string // unknown XML children, verbatim
-	UUID        string // attribute a device adds
-	IgnorableAny bool  // device adds <source-user><member>any</member></source-user>
+	Name         string
+	Action       string
+	From, To     string
+	Src, Dst     []string // names of addresses / one group / "any"
+	Svc          []string
+	LogStart     string
+	LogEnd       string
+	LogSetting   string
+	Extra        string // unknown XML children, verbatim
+	UUID         string // attribute a device adds
+	IgnorableAny bool   // device adds <source-user><member>any</member></source-user>
 }
 
 type AVsys struct {
 	Name        string
 	DisplayName string
 	Rules       []*ARule
-	Addr        map[string]string   // name -> ip-netmask
-	AddrExtra   map[string]string   // name -> unknown XML (e.g. <description>)
-	Groups      map[string][]string // name -> member address names
+	Addr        map[string]string    // name -> ip-netmask
+	AddrExtra   map[string]string    // name -> unknown XML (e.g. <description>)
+	Groups      map[string][]string  // name -> member address names
 	Svc         map[string][2]string // name -> proto, port
 	SGroups     map[string][]string
 }
@@ -150,6 +150,10 @@ func (v *AVsys) node(device bool) *Node {
 		a := &Node{Name: "address"}
 		for _, k := range sortedKeys(v.Addr) {
 			e := &Node{Name: "entry", Attrs: [][2]string{{"name", k}}, Children: []*Node{leaf("ip-netmask", v.Addr[k])}}
+			// other address types (from a raw file or made by hand), value "range:a-b"
+			if r, ok := strings.CutPrefix(v.Addr[k], "range:"); ok {
+				e.Children = []*Node{leaf("ip-range", r)}
+			}
 			if x := v.AddrExtra[k]; x != "" {
 				f, _ := parseFragment(x)
 				e.Children = append(e.Children, f...)
@@ -205,6 +209,8 @@ var (
 	netIPs  = []string{"10.1.2.0/24", "10.1.3.0/24", "10.1.0.0/16", "172.16.0.0/12"}
 	svcList = [][2]string{{"tcp", "80"}, {"tcp", "22"}, {"udp", "123"}, {"tcp", "443"}, {"udp", "53"}, {"tcp", "1024-65535"}}
 	zones   = []string{"z1", "z2", "z3"}
+	// values of ip-range address objects
+	rangeVals = []string{"10.1.1.3-10.1.1.7", "10.1.1.3-10.1.1.9", "10.1.5.1-10.1.5.100"}
 )
 
 func addrName(ip string) string {
@@ -259,6 +265,15 @@ func genAddrList(t *rapid.T, v *AVsys, label string) []string {
 	n := rapid.IntRange(1, 3).Draw(t, label+"N")
 	seen := map[string]bool{}
 	var l []string
+	if rapid.IntRange(0, 7).Draw(t, label+"range") == 0 {
+		// an address object of type ip-range
+		rn := rapid.SampledFrom([]string{"pool-a", "pool-b"}).Draw(t, label+"rangeN")
+		if _, ok := v.Addr[rn]; !ok {
+			v.Addr[rn] = "range:" + rapid.SampledFrom(rangeVals).Draw(t, label+"rangeV")
+		}
+		seen[rn] = true
+		l = append(l, rn)
+	}
 	for i := 0; i < n; i++ {
 		ip := rapid.SampledFrom(append(hostIPs, netIPs...)).Draw(t, fmt.Sprintf("%sA%d", label, i))
 		a := v.ensureAddr(ip)
@@ -568,6 +583,10 @@ func (v *AVsys) mutate(t *rapid.T, label string) string {
 			return "noop"
 		}
 		a := rapid.SampledFrom(as).Draw(t, label+"a")
+		if strings.HasPrefix(v.Addr[a], "range:") {
+			v.Addr[a] = "range:" + rapid.SampledFrom(rangeVals).Draw(t, label+"rval")
+			return "chgAddrRange"
+		}
 		if rapid.Bool().Draw(t, label+"descr") {
 			v.AddrExtra[a] = "<description>changed</description>"
 		} else {
